@@ -169,6 +169,13 @@ impl Prop for C03 {
                     out.push(format!("sdec {} {} x{}", name, lim.show(), hex(&bytes)));
                 }
             }
+            // length-field sweep: 8 length-bearing leaves x 12 declared lengths (-2, -1, 0, 1, i32::MIN, i32::MIN+1,
+            // i32::MAX, limit-1, limit, limit+1, limit+2, 3) under small limits
+            {
+                let lim = Lim { max_str: 2 + (case % 3), max_bytes: 2 + (case % 4), max_arr: 2 + (case % 2), max_depth: 10, max_msg: 0, named: 0 };
+                let (ty, b) = length_sweep(case, &lim);
+                out.push(format!("dec {} {} x{}", ty, lim.show(), hex(&b)));
+            }
             // --- chunks
             if case % 2 == 0 {
                 let size: u32 = match rng.below(8) {
